@@ -330,6 +330,15 @@ def C07(ck):
                       'liveness (every call returns, every task finishes) under weak fairness; every edge of every graph replayed on the '
                       'real code through the gate hooks with the faults injected at the same steps; free-running executions (jobs up to 64) '
                       'checked for exclusive, ordered, always-terminating hand-off by Trace_Reader/Trace_Writer interval predicates')
+    # the protocol in isolation: KzToken for small N (safety, liveness, as-found variant as self-test), the TLAPS proofs of the
+    # safety clauses for EVERY N, and the refinement KzReader => KzToken, KzWriter => KzToken on the configurations replayed below
+    import kztoken
+    kztoken.token_models(ck, (1, 2, 3, 4, 5) if T else (1, 2, 3, 4))
+    kztoken.token_proofs(ck)
+    kztoken.token_refinement(ck, rcfgs, wcfgs, selftest_rcfg=rcfg(3, ['ok', 'crc', 'ok', 'ok', 'eos'], lens=(3,)))
+    ck.cov['rule'] += ('; KzToken (the hand-off protocol alone): exclusive / ordered / cancellation sticks / failure cancels proved with '
+                       'TLAPS for every number of tasks, liveness model-checked for N <= 4 (5), and KzReader / KzWriter shown by TLC to '
+                       'refine KzToken on every configuration above')
     scen = kzwriter.run_models(ck, wcfgs, liveness_cfgs=wlive)
     kzwriter.replay(ck, scen)
     rscen = kzreader.run_models(ck, rcfgs, liveness_cfgs=rlive)
